@@ -272,6 +272,18 @@ pub fn check_parse_end_of_input(case: &Case) -> R {
     else { expect_failed(case.start, case.far, &r, ParseErrorSpecifics::ExpectedEoi) }
 }
 
+/// `ParseState::new(s, settings)`: the state holds exactly the caller's input at offset 0 and no recorded error
+pub fn check_new(case: &Case) -> R {
+    let input = match case.input() { Some(i) => i, None => return Ok(()) };
+    let st = ParseState::new(input, &ParseSettings::default());
+    if st.s().as_ptr() != input.as_ptr() || st.s().len() != input.len() || st.cache_key() != 0 {
+        return Err("a fresh state does not hold the caller's input at offset 0: every offset, range and error position reported later is shifted");
+    }
+    let e = st.clone().report_farthest_error();
+    if e.position != 0 || !spec_eq(&e.specifics, &ParseErrorSpecifics::Other) { return Err("a fresh state already carries a recorded error"); }
+    Ok(())
+}
+
 pub fn check_advance_safe(case: &Case) -> R {
     setup!(case, input, st);
     let n = case.n;
@@ -409,6 +421,7 @@ pub const CHECKS: &[(&str, fn(&Case) -> R)] = &[
     ("ParseState::slice_until", check_slice_range_until),
     ("ParseState::record_error", check_record_report),
     ("ChoiceHelper::choice", check_choice_helper),
+    ("ParseState::new", check_new),
 ];
 
 #[cfg(kani)]
